@@ -259,15 +259,16 @@ def main(argv=None):
         res.merge(run_shards(pid, plan['shards'], args.jobs))
         signal.alarm(0)
 
-        for lab in plan.get('required_classes', []):
-            if not res.classes.get(lab):
-                raise HarnessError('class %r promised by the design was never generated '
-                                   '(generator problem, not a verdict)' % lab)
-        if res.evaluations < 1 or res.distinct_nontrivial < 2:
-            raise HarnessError('vacuous run: %d evaluations, %d non-trivial'
-                               % (res.evaluations, res.distinct_nontrivial))
-
         nviol, known_keys = report(pid, mod, res, known, minimise=True)
+        if not res.failures:
+            # generator sanity is only meaningful when nothing cut cases short
+            for lab in plan.get('required_classes', []):
+                if not res.classes.get(lab):
+                    raise HarnessError('class %r promised by the design was never generated '
+                                       '(generator problem, not a verdict)' % lab)
+            if res.evaluations < 1 or res.distinct_nontrivial < 2:
+                raise HarnessError('vacuous run: %d evaluations, %d non-trivial'
+                                   % (res.evaluations, res.distinct_nontrivial))
         wall = time.time() - t0
         if not args.no_evidence:
             write_evidence(mod, pid, args.tier, seed, res, wall, nviol, known_keys,
